@@ -116,6 +116,11 @@ fn base_images() -> Vec<(String, Built)> {
     add("b64-soname-space", Spec { soname: Some("lib with space.so.1".into()), ..d.clone() });
     add("b64-soname-nonascii", Spec { soname: Some("lib\u{e9}\u{1f980}.so".into()), ..d.clone() });
     add("b64-soname-empty", Spec { soname: Some(String::new()), ..d.clone() });
+    // SONAME lengths around the 64-byte and 128-byte marks and at 255 bytes
+    for n in [63usize, 64, 65, 100, 128, 255] {
+        let nm: String = (0..n).map(|i| if i % 11 == 10 { '.' } else { (b'a' + (i % 26) as u8) as char }).collect();
+        add(&format!("b64-soname-len{n}"), Spec { soname: Some(nm), ..d.clone() });
+    }
     add("b64-longsoname", Spec { soname: Some("libwith-a-rather-long-name_and.some-dots.so.12.34.56".into()), ..d.clone() });
     add("b64-nonpie", Spec { vbase: 0x40_0000, ..d.clone() });
     add("b64-split-load", Spec { split_load_delta: 0x3000, ..d.clone() });
